@@ -153,7 +153,7 @@ theorem IndexInv.tr {b b' : Book} (h : IndexInv b) (t : Tr b b') : IndexInv b' :
   cases t with
   | misc c => exact h.misc c
   | drop v hv => exact h.drop v hv
-  | insert v es ok hes hcomp => exact h.insert v es ok
+  | insert v es ok hes hcomp hzero => exact h.insert v es ok
   | unlink x hx => exact h.congr rfl rfl rfl
 
 theorem IndexInv.steps {b b' : Book} (h : IndexInv b) (s : Steps b b') : IndexInv b' := by
